@@ -58,7 +58,7 @@ type CacheHistCase struct {
 	FileAgeDays int  `json:"file_age_days,omitempty"`
 }
 
-var c13Names = []string{"d1", "d2", "u1", "u2", "empty"}
+var c13Names = []string{"d1", "d2", "u1", "u2", "empty", uOdd}
 
 func c13Value(name string, ver uint32) []byte {
 	if name == "empty" {
